@@ -260,6 +260,37 @@ Inductive open_reply := OpenResult | OpenError (c : cond) | OpenNoReply.
 Definition open_succeeds (r : open_reply) : bool :=
   match r with OpenResult => true | _ => false end.
 
+(* The pinned tree's open() never looked at the reply: any reply at all made
+   it return a connection (kept for the record; see design/C15.md). *)
+Definition open_succeeds_pinned (r : open_reply) : bool :=
+  match r with OpenNoReply => false | _ => true end.
+
+(* The pinned tree's handlePayload, kept for the record: the sequence number
+   was advanced before the size test and the decoding, and the decoder
+   streamed into the buffer, so that the quanta in front of a corrupt one were
+   appended although the packet was refused. *)
+Fixpoint decoded_prefix (fuel : nat) (s : bytes) : bytes :=
+  match fuel with
+  | O => []
+  | S f =>
+      if length s <? 4 then []
+      else match decode (firstn 4 s) with
+           | Some d => d ++ decoded_prefix f (skipn 4 s)
+           | None => []
+           end
+  end.
+
+Definition payload_conn_pinned (c : rconn) (iq : bool) (seq : N) (data : bytes) : rconn * reply :=
+  if negb (seq =? rc_seq c)%N then (c, RErr UnexpectedRequest)
+  else
+    let adv b := mkrc (rc_sid c) (rc_bs c) (seq_next (rc_seq c)) b (rc_max c)
+                      (rc_registered c) (rc_rclosed c) in
+    if negb (fits c data) then (adv (rc_buf c), RErr ResourceConstraint)
+    else match decode_go data with
+         | None => (adv (rc_buf c ++ decoded_prefix (length data) (strip_newlines data)), RErr BadRequest)
+         | Some d => (adv (rc_buf c ++ d), if iq then RAck else RSilent)
+         end.
+
 (* the bytes an application reads from sid over a run *)
 Fixpoint reads_of (sid : bytes) (es : list event) (os : list obs) : bytes :=
   match es, os with
